@@ -51,7 +51,7 @@ Fixpoint digits (fuel : nat) (z : Z) (acc : list Z) : list Z :=
 Definition show_int (z : Z) : list Z := if z <? 0 then 45 :: digits 60 (- z) [] else digits 60 z [].
 Definition str_true := [84; 114; 117; 101].
 Definition str_false := [70; 97; 108; 115; 101].
-Definition str_none := [110; 111; 110; 101].
+Definition str_none := [78; 111; 110; 101].      (* "None" *)
 
 Definition show (v : value) : list Z :=
   match v with
